@@ -8,11 +8,11 @@ PROPS = {
         targets=["c04_interp"],
         level="exploration",
         rule="(i) exhaustive: every symmetric sparsity pattern on 1..5 nodes (1..6 thorough) and every pattern, structurally non-symmetric ones included, on 1..3 nodes (1..4 thorough), "
-             "each with the value classes {M-matrix, mixed sign, all-positive off-diagonals, zero row sums} (small integers: strength ties are exact) and eps_strong in {0.08, 0.5}; on each the whole "
+             "each with the value classes {M-matrix, mixed sign, all-positive off-diagonals, zero row sums, zero row sums with mixed signs} (small integers / dyadic values: strength ties and row sums are exact) and eps_strong in {0.08, 0.5}; on each the whole "
              "battery runs (plain/pointwise aggregates for block sizes 1..3 and min_aggregate 0..3, tentative prolongation with 0 and 2 null-space vectors, smoothed aggregation formula and row sums, "
              "Ruge-Stuben row sums with eps_trunc 0.2/0.25/0.5 and without truncation, lifting for aggregation / smoothed_aggregation / smoothed_aggr_emin with b=2,3). "
              "(ii) random: graphs from vf::gen_graph up to n=300 (path, 2-D/3-D grids, ER, tree+chords, band, star, disconnected union, diagonal) with M-matrix, convection-diffusion, diagonally dominant "
-             "mixed-sign / all-positive / zero-row-sum value families (real and integer valued), optional structural non-symmetry, eps_strong in (0,1), block_size 1..4 (A (x) I_b with and without stored "
+             "mixed-sign / all-positive / zero-row-sum value families (real and integer valued) and, for the row-sum clauses, symmetric matrices with mixed-sign off-diagonals and exactly zero row sums (dyadic values; nine-point grids with positive diagonal couplings and random graphs: F-rows whose positive couplings have no strong C-neighbour), optional structural non-symmetry, eps_strong in (0,1), block_size 1..4 (A (x) I_b with and without stored "
              "zeros, A (x) dense block), min_aggregate 0..4, null-space dimension 0..4 with random B, relax, estimate_spectral_radius (Gershgorin and power iteration), Ruge-Stuben do_trunc / eps_trunc "
              "in {0.2,0.25,0.5,0.75,random} on integer matrices so that v == eps_trunc*a_min occurs; the public function tentative_prolongation() is also called directly on arbitrary partitions "
              "(1..4 null-space vectors, block_size 1..2) including aggregates with fewer unknowns than null-space vectors (regression for the QR::R over-read); the *_mt registrations repeat the random props under 4 OpenMP threads. "
